@@ -20,7 +20,7 @@ MergeEmit(s) ==
    /\ emitted' = Append(emitted, Em(s, cursor[s] + 1, hd[s], FirstOf(emitted, hd[s])))
    /\ UNCHANGED msys
 
-MergeInit == /\ msys \in ExplicitSystems
+MergeInit == /\ IsExplicitSystem(msys)
              /\ cursor = [s \in 1..NStreams(msys) |-> 0]
              /\ emitted = <<>>
 MergeNext == \E s \in 1..NStreams(msys) : MergeEmit(s)
